@@ -99,6 +99,37 @@ PROPS = {
             "non-canonical base64 is compared against a lenient reference decoding",
         ],
     ),
+    "C05": dict(
+        regress="TestC05Regress",
+        subs=[
+            dict(test="TestC05Structured", quick=4000, thorough=25000),
+            dict(test="TestC05Raw", quick=15000, thorough=150000),
+        ],
+        fuzz=[dict(target="FuzzC05", seconds=90)],
+        rule="Structured hostile inputs: a valid document from the C02 generator is marshaled with every field selected, parsed into an ordered "
+             "JSON tree and mutated 1-3 times (any node replaced by a value of another JSON kind, member deleted, duplicate key, unknown / swapped / "
+             "empty type name, unknown field, null array element, nesting to depth 3..10001, truncation); the document text, its data sub-tree, "
+             "a member and an included element are each fed to UnmarshalDocument, UnmarshalResource, UnmarshalPartialResource, UnmarshalCollection, "
+             "UnmarshalIdentifier, UnmarshalIdentifiers and NewRequest (POST/PATCH/GET). Raw inputs: arbitrary bytes and JSON token soups with schema "
+             "names. Thorough adds a 90 s coverage-guided native fuzz campaign (fixed 2-type all-kinds schema, golden files and hostile constants as "
+             "corpus). Oracle: no panic; error xor result; every returned resource has a schema type, only the schema's fields, every attribute value "
+             "of exactly the declared Go type (nil only if nullable), to-one string, to-many []string; identifiers non-empty with a schema type. "
+             "Non-trivial (structured) = every case (all are syntactically valid JSON before truncation); (raw) = input is valid JSON.",
+        assumptions=COMMON_ASSUMPTIONS + [
+            "'no result' on error is read as nil, the zero value or an empty list",
+            "native fuzz campaigns are not seed-reproducible; their saved inputs are",
+        ],
+    ),
+    "C13": dict(
+        regress="TestC13Regress",
+        subs=[dict(test="TestC13Partial", quick=15000, thorough=120000)],
+        rule="Resource payloads built from a generated type with any subset of attributes and relationships present (relationship objects with "
+             "data null / identifier / list / links only / meta only / ill-shaped, explicit nulls, 10% ill-typed literals, 10% unknown fields); "
+             "oracle: differential against UnmarshalResource (accepted iff accepted, same values) plus the payload model (type name, attribute "
+             "keys = keys of the attributes object, relationship keys = relationships carrying data, definitions equal to the schema's). "
+             "Non-trivial = accepted payload with a strict non-empty subset of the fields present or a relationship object without data.",
+        assumptions=COMMON_ASSUMPTIONS + ["a panicking call makes the case inapplicable (C05's subject)"],
+    ),
 }
 
 LEVEL_NOTE = ("Trusted base: Go toolchain and runtime, encoding/json, reflect, rapid v1.3.0, the harness' own generators and "
@@ -106,6 +137,17 @@ LEVEL_NOTE = ("Trusted base: Go toolchain and runtime, encoding/json, reflect, r
               "violation is not a proof.")
 
 MANIFEST_TEXT = {
+    "C05": dict(
+        technique="property-based testing (rapid) with JSON-level mutation of valid documents + raw byte/token inputs + native coverage-guided fuzzing (thorough), validity-predicate oracle",
+        engine="rapid + go-native-fuzz",
+        level_text="Exploration: structured mutation reaches the logic behind the skeleton decoding; the fuzz tier searches for magic byte sequences; every entry point is run on every input with a conformance oracle on results.",
+        level_note=LEVEL_NOTE,
+    ),
+    "C13": dict(
+        technique="property-based testing (rapid): differential (partial vs full unmarshaling) + payload-model oracle",
+        level_text="Exploration: every generated payload goes through both functions; acceptance must agree and the partial type must be exactly what the payload text carries.",
+        level_note=LEVEL_NOTE,
+    ),
     "C06": dict(
         technique="property-based testing (rapid) with meaning-first literal generation + exhaustive enumeration of 8/16-bit integer literals",
         level_text="Exploration: literals whose meaning is known by construction are crossed with all 28 kinds; all 8- and 16-bit integer literals (+-300 beyond 2^16) are enumerated exhaustively on every run.",
